@@ -14,6 +14,7 @@ cannot occur for the edits the property lists (content edits, swaps, additions, 
 name of different length) when hash values have a fixed length.
 -/
 import Lemmas.Hash
+import Lemmas.HashRoundTrip
 
 namespace Props.C06
 open Atlas Atlas.Hash
@@ -155,6 +156,59 @@ theorem missing_sum_file (H : Bytes → Bytes) (dir : List DFile) :
   unfold validate
   cases h : files dir <;> simp
 
+
+/-! ### the round trip of the text format, for every well-formed directory -/
+
+/-- a hash function whose output is a base64 text (no LF, CR or ':'), like `NewHashFile`'s. -/
+def GoodH (H : Bytes → Bytes) : Prop := ∀ x, GoodHash (H x)
+
+/-- a file name the sum-file format can carry: no line feed, and it survives `strings.TrimSpace`
+with the separating blank appended (no leading / trailing Unicode white space, not empty). -/
+def WFName (n : Bytes) : Prop := (∀ b ∈ n, b ≠ 0x0a) ∧ Atlas.Bytes.trimSpace (n ++ [0x20]) = n
+
+theorem entries_wf (H : Bytes → Bytes) (hH : GoodH H) : ∀ (fs : List DFile) (acc : Bytes),
+    (∀ f ∈ fs, WFName f.name) → ∀ e ∈ newHashFileFrom H acc fs, WFEntry e := by
+  intro fs
+  induction fs with
+  | nil => intro _ _ e he; simp [newHashFileFrom] at he
+  | cons f t ih =>
+    intro acc hn e he
+    unfold newHashFileFrom at he
+    split at he
+    · exact ih _ (fun g hg => hn g (List.mem_cons_of_mem _ hg)) e he
+    · rcases List.mem_cons.mp he with rfl | he
+      · have := hn f (List.mem_cons_self ..)
+        exact ⟨this.1, this.2, hH _⟩
+      · exact ih _ (fun g hg => hn g (List.mem_cons_of_mem _ hg)) e he
+
+/-- **roundTrip_general**: `UnmarshalText (MarshalText es) = es` for every list of well-formed
+entries (any number of files). -/
+theorem roundTrip_general (H : Bytes → Bytes) (hH : GoodH H) (es : List Entry)
+    (hwf : ∀ e ∈ es, WFEntry e) : RoundTrip H es := by
+  unfold RoundTrip
+  rw [unmarshal_marshal H es (hH _) hwf]
+  rfl
+
+/-- the sum file of every directory whose file names are well-formed reads back. -/
+theorem roundTrip_dir (H : Bytes → Bytes) (hH : GoodH H) (dir : List DFile)
+    (hn : ∀ f ∈ files dir, WFName f.name) : RoundTrip H (newHashFile H (files dir)) :=
+  roundTrip_general H hH _ (entries_wf H hH (files dir) [] hn)
+
+/-- **validate_after_write_wf**: for every directory with well-formed file names (any number of
+files, any contents), the directory validates right after its sum file was written. -/
+theorem validate_after_write_wf (H : Bytes → Bytes) (hH : GoodH H) (dir : List DFile)
+    (hn : ∀ f ∈ files dir, WFName f.name) : validate H dir (some (writeSum H dir)) = .ok :=
+  validate_after_write H dir (roundTrip_dir H hH dir hn)
+
+/-- **validate_detects_wf**: `validate_detects` without the round-trip hypothesis. -/
+theorem validate_detects_wf (H : Bytes → Bytes) (hH : GoodH H) (dir dir' : List DFile)
+    (hn : ∀ f ∈ files dir, WFName f.name)
+    (hi : NoIgnore (files dir)) (hi' : NoIgnore (files dir'))
+    (hok : validate H dir' (some (writeSum H dir)) = .ok) :
+    files dir' = files dir ∨ Collision H ∨
+      Framing (newHashFile H (files dir)) (newHashFile H (files dir')) :=
+  validate_detects H dir dir' (roundTrip_dir H hH dir hn) hi hi' hok
+
 /-! ### non-vacuity and the recorded findings (tests by evaluation, toy hash) -/
 
 /-- a toy "hash" of fixed length 4 over the letters A..P, used only by the examples. -/
@@ -171,6 +225,13 @@ example : (files dirA).map (·.name) = [n1, n2] := by decide
 theorem roundTrip_example : RoundTrip toyH (newHashFile toyH (files dirA)) := by unfold RoundTrip; decide
 example : validate toyH dirA (some (writeSum toyH dirA)) = .ok := by decide
 example : NoIgnore (files dirA) := by unfold NoIgnore; decide
+example : WFName n1 ∧ WFName n2 := by unfold WFName; decide
+/-- the hypotheses of the `_wf` theorems are satisfiable (a two-letter constant "hash"). -/
+example : GoodH (fun _ => [65, 66]) := by
+  intro x b hb
+  simp only [List.mem_cons, List.not_mem_nil, or_false] at hb
+  rcases hb with rfl | rfl <;> decide
+example : validate (fun _ => [65, 66]) dirA (some (writeSum (fun _ => [65, 66]) dirA)) = .ok := by decide
 
 def ignoreFile : DFile :=
   ⟨ascii ['9', '_', 'z', '.', 's', 'q', 'l'],
